@@ -482,10 +482,7 @@ def check(ctx: Ctx) -> None:
         "faults are runtime matters and are not decided.")
     ctx.trust("urllib.parse.quote/unquote are inverse on paths with default safe characters", "os/shutil semantics", "Engine A abstract semantics")
     I = Interp(ctx.prog)
-    copy_to_obligations(ctx, I)
-    as_dict_obligations(ctx, I)
-    source_path_map_table(ctx, I)
-    save_html_obligations(ctx, I)
+    # (syntactic scan first: it needs no model of the function bodies, so it still reports when they cannot be interpreted)
     # nothing on the URL / copy path is remembered between calls: every save recomputes paths from the dependency and copies again
     from .. import nondet
     idx = nondet.index_functions(ctx.prog)
@@ -507,6 +504,10 @@ def check(ctx: Ctx) -> None:
                      f"or call is handed to a later one, so the files copied are not the ones the URLs name",
                      witness="two dependencies with the same subdir in different packages, saved in one process", line=getattr(node, "lineno", None))
     ctx.ok("C12.P2", "no function on the save_html / copy_to path carries a cache decorator or keeps module-level state")
+    copy_to_obligations(ctx, I)
+    as_dict_obligations(ctx, I)
+    source_path_map_table(ctx, I)
+    save_html_obligations(ctx, I)
     # the settings used for the URLs are the ones save_html copies with: every link of the call chain forwards them
     from .c11 import forwarding_chain
     forwarding_chain(ctx, I, "C12.P2")
